@@ -17,6 +17,10 @@ def programs(spec, mode):
             kind = kinds[i % len(kinds)]
             pseed = seed * 1000003 + i
             pad = (i % 23 == 7) and kind not in ("module", "class")
+            if i % 17 == 5 and kind in ("coro", "gen", "agen", "sync"):
+                src = proggen.deep(pseed, kind, mode)
+                yield ("deep", pseed, kind), src, kind
+                continue
             size = spec.get("size", 2 + (i % 3 == 0))
             src = proggen.generate(pseed, kind, mode, size=size, pad=pad)
             while src.count("\n") > 130 and size > 1:
